@@ -140,6 +140,10 @@ pub(crate) fn is_plain_safe(s: &str) -> bool {
     if bytes[0].is_ascii_whitespace() {
         return false;
     }
+    // Trailing blanks are not part of a plain scalar: the reader strips them.
+    if bytes[bytes.len() - 1] == b' ' {
+        return false;
+    }
 
     // YAML indicators are only special in certain forms.
     // For example, "-a" and "?query" are valid plain scalars, while "-" / "?"
@@ -177,6 +181,10 @@ pub(crate) fn is_plain_value_safe(s: &str, yaml_12: bool, in_flow: bool) -> bool
 
     let bytes = s.as_bytes();
     if bytes[0].is_ascii_whitespace() {
+        return false;
+    }
+    // Trailing blanks are not part of a plain scalar: the reader strips them.
+    if bytes[bytes.len() - 1] == b' ' {
         return false;
     }
 
